@@ -51,7 +51,7 @@ type NumOpts struct {
 	Extreme bool
 }
 
-var extremeNums = []string{"1e30000", "-7e45000", "1e-30000", "123456789e19990"}
+var extremeNums = []string{"1e20000", "-7e20000", "1e-20000"}
 
 // Num draws a number by class (DESIGN.md §2.3).
 func Num(o NumOpts) *rapid.Generator[spec.Num] {
